@@ -182,6 +182,12 @@ def run_zinc(rep, tier, want):
                 found.append((prop, dict(meta, engine='zinc', clause=clause),
                               {'plan': meta, 'text': text, 'clause': clause, 'position': pos,
                                'near': text[max(0, pos - 25):pos + 10] if pos else ''}))
+        # the documents the repository's own test-suite parses / produces, read by the same machine
+        if 'C04' in want:
+            import rectest
+            rec, _ = rectest.record(work, codec=True)
+            for f, d in rectest.judge_codec(rep, work, rec, {('dump', 'zinc')}):
+                found.append(('C04', f, d))
         rep.sample({'plan': items[len(items) // 3][0]})
         rep.extra['plans'] = len(plans)
         rep.extra['documents'] = len(docs)
